@@ -15,7 +15,7 @@ for i in ids:
     else:
         na.append({"property_id":i,"reason":info['na'].get(i,"check not built yet (build in progress); planned, see DESIGN.md section 5")})
 m={"version":1,
- "setup_cmd":"cd /verif/harness && GOFLAGS=-mod=mod GOPROXY=off GOSUMDB=off GOTOOLCHAIN=local go build -tags verif -o /dev/null ./cmd/vh && java -cp /opt/veriftools/tla/tla2tools.jar tlc2.TLC -h >/dev/null 2>&1; true",
+ "setup_cmd":"cd /verif/harness && export GOFLAGS=-mod=mod GOPROXY=off GOSUMDB=off GOTOOLCHAIN=local && go build -tags verif -gcflags=all=-d=checkptr -o /dev/null ./cmd/vh && go build -race -tags verif -o /dev/null ./cmd/vh && java -cp /opt/veriftools/tla/tla2tools.jar tlc2.TLC -h >/dev/null 2>&1; true",
  "hooks":{"guard":"verif","enable":"go build -tags verif (the harness module /verif/harness replaces github.com/intel/fastgo with /repo; ./check rebuilds it on every invocation)","baseline_off_cmd":"cd /repo && go test -vet=off -count=1 ./...","source_commits":hookc,"add_only":True},
  "engines":[{"name":"vh+tlc","path":"/verif/check","serves_properties":[c['property_id'] for c in checks],"kind_free_text":"Go harness (driver + per-acceleration-level worker processes) that executes TLC-generated behaviours against the real code, records ndjson traces and validates them with TLC against the TLA+ contract specifications in /verif/spec; TLC also model-checks the design-level specifications"}],
  "checks":checks,
